@@ -184,6 +184,56 @@ def judge(chk, sc, steps):
             chk.samples.append({"invocations": sc["invocations"], "spawns": [s["spawns"] for s in steps]})
 
 
+def big_project(nb, na, name_len):
+    """nb builders x na apps with long names: the list of output paths of a selection is far beyond what small projects produce
+    (hundreds of kilobytes of ninja arguments)"""
+    pad = "x" * name_len
+    ctx = {"name": "default", "env": {"bindir": "${build-dir}/out/${builder}/${app}"},
+           "rules": [{"name": "CC", "in": "c", "out": "o", "cmd": "cc -c ${in} -o ${out}"},
+                     {"name": "LINK", "in": "o", "cmd": "ld ${in} -o ${out}"}]}
+    return {"files": {"laze-project.yml": [{
+        "contexts": [ctx],
+        "builders": [{"name": f"b{i}{pad}"} for i in range(nb)],
+        "apps": [{"name": f"a{j}{pad}", "sources": [f"a{j}.c"]} for j in range(na)]}]}, "args": {}}
+
+
+def big_scenario(chk, nb, na, name_len):
+    """scale: a wide generate-only run, then a selection of all builders but one served from its cache; implementation-side oracle
+    only (the targets handed to ninja are exactly the outputs of the selected configured builds)"""
+    p = big_project(nb, na, name_len)
+    builders = [b["name"] for b in p["files"]["laze-project.yml"][0]["builders"]]
+    s = clirun.Scenario(p)
+    try:
+        r0 = s.invoke({"args": {}, "flags": {"generate_only": True}})
+        outs = {(b["builder"], b["app"]): b["outfile"] for b in r0["dump"] if b["decision"] == "built"}
+        chk.evaluations += 1
+        if r0["rc"] != 0 or len(outs) != nb * na:
+            chk.fail_oracle("ninja:big-project-not-generated", f"{nb}x{na} builds: exit {r0['rc']}, {len(outs)} configured: {r0['stderr'][-200:]}", {"big": [nb, na, name_len]})
+            return
+        for sel in (builders[:-1], builders[1:2]):
+            inv = {"args": {"builders": sel}, "flags": {"jobs": 2}}
+            r = s.invoke(inv)
+            chk.evaluations += 1
+            chk.count("big:hit" if r["cache_hit"] else "big:miss")
+            nl = [l for l in r["spawns"] if l.startswith("N:")]
+            want = sorted(o for (b, a), o in outs.items() if b in sel)
+            if len(nl) != 1:
+                chk.fail_oracle("ninja:big-spawn", f"{len(nl)} ninja invocations for a selection of {len(sel)} builders (exit {r['rc']}: {r['stderr'][-200:]})", {"big": [nb, na, name_len]})
+                continue
+            argv = nl[0][2:].split(" ")
+            targets = sorted(a for a in argv[6:])        # -f file -j 2 -k 1
+            chk.count("big:target-bytes", sum(len(t) + 1 for t in want))
+            if argv[:6] != ["-f", "build/build-global.ninja", "-j", "2", "-k", "1"] or targets != want:
+                missing = len(set(want) - set(targets))
+                chk.fail_oracle("ninja:targets:large-selection", f"selection of {len(sel)}/{nb} builders x {na} apps ({sum(len(t) + 1 for t in want)} bytes of output paths): "
+                                f"ninja got {len(targets)} targets, {missing} of the {len(want)} selected outputs are missing"
+                                + (" — without targets ninja builds the whole file, which also contains the unselected builders" if not targets else ""),
+                                {"big": [nb, na, name_len], "selection": sel[:3] + ["..."]})
+        chk.nontrivial.add(f"big-{nb}-{na}-{name_len}")
+    finally:
+        s.close()
+
+
 def run(chk):
     n = 300 if chk.tier == "quick" else 2500
     chk.rule = ("scenarios = project x sequence of 2-4 laze invocations (wide run, then narrower --builders/--apps runs that hit the cache, "
@@ -193,6 +243,8 @@ def run(chk):
     scs = [gen_scenario(chk.seed, i) for i in range(n)]
     for sc, steps in common.parallel_map(worker, scs):
         judge(chk, sc, steps)
+    for nb, na, ln in ([(24, 40, 60)] if chk.tier == "quick" else [(24, 40, 60), (46, 50, 8), (60, 60, 40)]):
+        big_scenario(chk, nb, na, ln)
     chk.assumptions = ["process spawning itself (std::process::Command, PATH lookup) is not modelled; observed through stand-in executables"]
     return chk.finish()
 
